@@ -9,6 +9,9 @@ package main
 //            (and stored nothing yet); then the victim runs.
 //   cancel : another request over a disjoint DAG is cancelled by the caller while block-carrying response items are
 //            still queued in its loader; then the victim (whose responder lacks some block) runs.
+//   rcancel: an earlier request over the victim's OWN DAG is paused by the responder (outgoing-block hook) after its
+//            first block, cancelled by the requestor while it is paused there (not running), and the caller discards
+//            what it had stored; then the victim runs: nothing of the cancelled response may still count as "sent".
 
 import (
 	"context"
@@ -77,7 +80,7 @@ func runFamCase(w *cw.Writer, fc famCase, kind string) error {
 	r := rng.New(fc.Seed)
 	fam := fc.Family
 	if fam == "" {
-		fam = []string{"ignore", "bucket", "cancel"}[r.Intn(3)]
+		fam = []string{"ignore", "bucket", "cancel", "rcancel"}[r.Intn(4)]
 	}
 	min1, min2 := 1, 1
 	if fam == "bucket" {
@@ -85,6 +88,9 @@ func runFamCase(w *cw.Writer, fc famCase, kind string) error {
 	}
 	if fam == "cancel" {
 		min1 = 3
+	}
+	if fam == "rcancel" {
+		min2 = 2
 	}
 	d, n1, desc := twoDAGs(r, min1, min2)
 	n := len(d.Blocks)
@@ -254,6 +260,15 @@ func runFamCase(w *cw.Writer, fc famCase, kind string) error {
 			ha.PauseRequest()
 		}
 	})
+	respPauseArmed := false // rcancel: the responder pauses the response it is serving after its first block
+	resp.RegisterOutgoingBlockHook(func(p peer.ID, rd graphsync.RequestData, b graphsync.BlockData, ha graphsync.OutgoingBlockHookActions) {
+		gmu.Lock()
+		defer gmu.Unlock()
+		if respPauseArmed && b.Index() == 1 {
+			respPauseArmed = false
+			ha.PauseResponse()
+		}
+	})
 	ctx, cancel := context.WithTimeout(world.Ctx, 25*time.Second)
 	defer cancel()
 	type res struct{ o observed }
@@ -363,6 +378,44 @@ func runFamCase(w *cw.Writer, fc famCase, kind string) error {
 		acancel() // cancelled while parked: its loader is cleaned up with the queued items
 		<-ca
 		victim = (<-start(ctx, vroot, tbv)).o
+	case "rcancel":
+		setTag(vroot, 2)
+		gmu.Lock()
+		respPauseArmed = true
+		gmu.Unlock()
+		actx, acancel := context.WithCancel(ctx)
+		ca := start(actx, vroot, newTables())
+		var aid graphsync.RequestID
+		deadline := time.Now().Add(10 * time.Second)
+		for {
+			gmu.Lock()
+			for id, root := range ids {
+				if root.Equals(d.Blocks[vroot].Cid) {
+					aid = id
+				}
+			}
+			gmu.Unlock()
+			st, ok := resp.(*gsimpl.GraphSync).PeerState(world.Nodes[0].ID()).IncomingState.RequestStates[aid]
+			if (ok && st == graphsync.Paused) || time.Now().After(deadline) {
+				break
+			}
+			select {
+			case <-time.After(200 * time.Microsecond):
+			case <-ctx.Done():
+			}
+		}
+		select { // drop a stale signal
+		case <-finished[2]:
+		default:
+		}
+		acancel() // cancelled by the requestor while the response is paused on the responder
+		<-ca
+		wait(finished[2]) // the responder has seen the cancel
+		gmu.Lock()
+		respPauseArmed = false
+		gmu.Unlock()
+		world.Nodes[0].Store.Clear() // the caller discards the partial data
+		victim = (<-start(ctx, vroot, tbv)).o
 	}
 	// the store
 	bad := false
@@ -383,7 +436,7 @@ func runFamCase(w *cw.Writer, fc famCase, kind string) error {
 	fc.Family = fam
 	fc.Desc = desc + fmt.Sprintf(" n1=%d victim-root=%d links=%d R=%v", n1, vroot, plv.nodes(), R)
 	fc.Tags = tags
-	famN := map[string]int{"ignore": 1, "bucket": 2, "cancel": 3}[fam]
+	famN := map[string]int{"ignore": 1, "bucket": 2, "cancel": 3, "rcancel": 4}[fam]
 	victim.store = nil
 	term := fmt.Sprintf("Build_fcase %d %s [] %s\n    %s %s %s", famN, plv.coq(), idxList(R), outcomeTerm(victim), cw.NList(store), cw.Bool(bad))
 	idx := w.Add(term, fc, true, tags...)
